@@ -10,6 +10,9 @@ func TestMaskPos(t *testing.T) {
 		{"panic: hello\nCall frames:\n  at: main 'k/pan.ego'  16  (file k/pan.ego)\n", "panic: hello\nCall frames:\n  at: main 'k/pan.ego' N  (file k/pan.ego)\n"},
 		{"from:        inner  7  \nnext 12", "from:        inner N\nnext 12"},
 		{"t3 16\nvalue at: 12", "t3 16\nvalue at: 12"},
+		{"t21 caught at defer main:181(line 185), division by zero", "t21 caught at defer main:N(line N), division by zero"},
+		{"error in defer h3:7", "error in defer h3:N"},
+		{"ratio x:12 y:3", "ratio x:12 y:3"},
 	} {
 		if got := maskPos(c[0]); got != c[1] {
 			t.Errorf("maskPos(%q) = %q, want %q", c[0], got, c[1])
